@@ -13,7 +13,7 @@ use crate::spec;
 use crate::tarfmt;
 use crate::util::*;
 
-pub const ORACLES: &[(&str, Oracle)] = &[("archive", o_archive), ("archive_extra", o_archive_extra), ("archive_version", o_archive_version)];
+pub const ORACLES: &[(&str, Oracle)] = &[("archive", o_archive), ("archive_extra", o_archive_extra), ("archive_odd_names", o_archive_odd_names), ("archive_version", o_archive_version)];
 
 const KNOWN_ENTRIES: [&str; 8] = ["peppi.json", "metadata.json", "start.json", "start.raw", "end.json", "end.raw", "gecko_codes.raw", "frames.arrow"];
 
@@ -127,6 +127,37 @@ pub fn o_archive_extra(input: &[u8], p: &P) -> Out {
 	out
 }
 
+/// input = an archive as the writer produced it; p.n[0] = position, p.n[1] = kind of an unknown entry with an
+/// unusual name (built with the harness's raw tar writer): 0 a path of more than 100 bytes (GNU long-name
+/// record) whose first 100 bytes end in a known entry name, 1 a long path that IS a known name after a long
+/// directory part cut at byte 100, 2 a name that is not UTF-8, 3 the directory member `./`, 4 a name of
+/// exactly 100 bytes
+pub fn o_archive_odd_names(input: &[u8], p: &P) -> Out {
+	let mut out = Out { transitions: 2, nontrivial: true, ..Default::default() };
+	let r = catch(|| -> Result<u64, (String, String)> {
+		let e = |k: &str, m: String| (k.to_string(), m);
+		let entries = tarfmt::entries(input).map_err(|m| machinery(&format!("C18: written archive is malformed: {}", m))).unwrap();
+		let mut list: Vec<(Vec<u8>, Vec<u8>, u8)> = entries.iter().map(|x| (x.name.clone().into_bytes(), x.data.clone(), b'0')).collect();
+		let garbage: Vec<u8> = (0..700).map(|i| (i * 7 % 251) as u8).collect();
+		let extra: (Vec<u8>, Vec<u8>, u8) = match p.n[1] {
+			0 => (format!("{}/start.raw.orig", "a".repeat(90)).into_bytes(), garbage, b'0'),
+			1 => (format!("{}/end.raw/{}", "b".repeat(92), "c".repeat(30)).into_bytes(), garbage, b'0'),
+			2 => (vec![0xE9, b'.', b'b', b'i', b'n'], garbage, b'0'),
+			3 => (b"./".to_vec(), vec![], b'5'),
+			_ => ("d".repeat(100).into_bytes(), garbage, b'0'),
+		};
+		let pos = (p.n[0].max(0) as usize).min(list.len());
+		list.insert(pos, extra);
+		let with = tarfmt::build_raw(&list);
+		let g0 = read_slpp(input, p.skip).map_err(|f| e("base-read-failed", format!("the archive without extra entries does not read: {}", f.describe())))?;
+		let g = read_slpp(&with, p.skip).map_err(|f| e(&format!("read-failed:{}", f.key()), format!("an unknown entry with an unusual name makes peppi::read fail: {}", f.describe())))?;
+		games_equal(&g0, &g, true).map_err(|m| e("game-differs", format!("an unknown entry with an unusual name changes the game: {}", m)))?;
+		Ok(p.n[1] as u64)
+	});
+	finish_out(&mut out, "archive_odd_names", p, r);
+	out
+}
+
 /// input = an archive; p.n[0..3] = format version triple to stamp into peppi.json
 pub fn o_archive_version(input: &[u8], p: &P) -> Out {
 	let mut out = Out { transitions: 1, nontrivial: true, ..Default::default() };
@@ -175,7 +206,7 @@ fn version_verdict(bytes: &[u8], v: (u8, u8, u8), cur: (u8, u8, u8)) -> Result<u
 
 pub fn run() {
 	let cx = ctx();
-	cx.note("rule", json!("archives of the corner list (base, zero frames, no/empty metadata, no end, double end, gecko, nothing) per layout-class representative x {none, LZ4, ZSTD} x hash {off,on}, inspected with the harness's own tar reader: signature at offset 0, entry order, every JSON entry valid and equal to the rendering of what peppi::read reconstructs, raw entries equal to the raw blocks, two writes byte-identical; plus 1,101 metadata sizes growing byte by byte over more than two tar blocks (every entry length modulo 512); unknown entries (names x, zz.json, frames.arrow.bak, empty name-ish, 3 KB) inserted at EVERY position before frames.arrow, singly and in pairs: game unchanged; peppi.json rewritten (own tar writer, checksum recomputed) with format version triples: quick all (major,minor) at patch 0 and all triples over {0,1,2,3,255}; thorough ALL 2^24: read is Err for every triple < (2,0,0), Ok for every triple from 2.0.0 up to the version the writer stamps, and for later versions (on which the statement is silent) Err or Ok. Every case non-trivial; distinct by construction"));
+	cx.note("rule", json!("archives of the corner list (base, zero frames, no/empty metadata, no end, double end, gecko, nothing) per layout-class representative x {none, LZ4, ZSTD} x hash {off,on}, inspected with the harness's own tar reader: signature at offset 0, entry order, every JSON entry valid and equal to the rendering of what peppi::read reconstructs, raw entries equal to the raw blocks, two writes byte-identical; plus 1,101 metadata sizes growing byte by byte over more than two tar blocks (every entry length modulo 512); unknown entries (names x, zz.json, frames.arrow.bak, empty name-ish, 3 KB) inserted at EVERY position before frames.arrow, singly and in pairs: game unchanged; unknown entries with unusual names (a GNU long-name record whose first 100 bytes end in a known name, a name that is not UTF-8, the directory member ./, a 100-byte name) at every position; peppi.json rewritten (own tar writer, checksum recomputed) with format version triples: quick all (major,minor) at patch 0 and all triples over {0,1,2,3,255}; thorough ALL 2^24: read is Err for every triple < (2,0,0), Ok for every triple from 2.0.0 up to the version the writer stamps, and for later versions (on which the statement is silent) Err or Ok. Every case non-trivial; distinct by construction"));
 	cx.note("exhaustive", json!(true));
 	cx.note("assumptions", json!(["for a game without frames the statement leaves the presence of frames.arrow open: both accepted"]));
 	let versions = if cx.quick() { vec![(0, 1), (1, 3), (2, 0), (2, 2), (3, 0), (3, 3), (3, 7), (3, 13), (3, 16)] } else { spec::v_rep() };
@@ -249,6 +280,26 @@ pub fn run() {
 				}
 			}
 		}
+	}
+	// unknown entries with unusual names, at every position before frames.arrow
+	{
+		let mut ojobs = vec![];
+		for (a, label) in corner_replays((3, 16)).into_iter().take(3).chain(corner_replays((2, 0)).into_iter().take(1)) {
+			let arch = Arc::new(mk_archive(&a, 0));
+			let n = tarfmt::entries(&arch).map(|x| x.iter().position(|y| y.name == "frames.arrow").unwrap_or(x.len())).unwrap_or(0);
+			for pos in 0..=n {
+				for kind in 0..5i64 {
+					ojobs.push((arch.clone(), format!("{} + odd-named entry kind {} at {}", label, kind, pos), pos as i64, kind));
+				}
+			}
+		}
+		cx.note("odd_name_cases", json!(ojobs.len()));
+		par_each(ojobs.into_iter(), |(arch, label, pos, kind), local| {
+			let mut p = P { skip: (pos + kind) % 2 == 1, class: "odd-names", ..Default::default() };
+			p.n[0] = pos;
+			p.n[1] = kind;
+			eval_case("archive_odd_names", o_archive_odd_names, &arch, &p, || label, local);
+		});
 	}
 	cx.note("extra_entry_cases", json!(jobs.len()));
 	par_each(jobs.into_iter(), |(bytes, label, skip), local| {
